@@ -263,4 +263,5 @@ Definition c12_row (c : cfg) (ops : list op) (obs : list result) (sb : list (Z *
     ok_rr_balance c ops obs;
     ok_bf_window c ops obs;
     ok_bf_used_zero c ops obs;
-    ok_bf_eligible c ops obs ].
+    ok_bf_eligible c ops obs;
+    true; true ].   (* lin_terminates, lin_exactly_once: interleaving cases only (TmgrSched.Lin) *)
